@@ -54,6 +54,7 @@ class Harness:
         self.kind = attrs.get("kind", "main")  # main | finding:<Fn> | gate
         self.memsafe = attrs.get("memsafe", "off") == "on"
         self.timeout = int(attrs["timeout"]) if "timeout" in attrs else None
+        self.mem_kb = int(attrs["mem"]) * 1024 * 1024 if "mem" in attrs else None  # address-space limit in GB
         self.bounds = bounds
         self.funcs = funcs
         self.notes = notes
@@ -304,7 +305,7 @@ def run_harness(h, crate, logdir, tier):
     if os.environ.get("KV_TIMEOUT"):
         timeout = int(os.environ["KV_TIMEOUT"])
     log = os.path.join(logdir, h.name + ".log")
-    rc, timed_out = run(harness_cmd(h), crate, log, timeout, MEM_LIMIT_KB)
+    rc, timed_out = run(harness_cmd(h), crate, log, timeout, h.mem_kb or MEM_LIMIT_KB)
     text = open(log, errors="replace").read()
     r = parse_kani_log(text)
     r["wall_s"] = round(time.time() - t0, 2)
